@@ -248,3 +248,40 @@ Print Assumptions C13_relative_url_empty_authority_refuted.
 Theorem C13_relative_url_dot_with_params_refuted : deviates (H "2e3b78"%string).
 Proof. exact dev_dot_with_params. Qed.
 Print Assumptions C13_relative_url_dot_with_params_refuted.
+
+(* ---- "Host: name:" (empty port, legal in RFC 3986 3.2.3): observationally the request with "Host: name"
+        (host_port as repaired by fixes/C13-2-host-port-empty-port.patch), so every theorem above transfers *)
+Theorem C13_empty_port : forall v6ok e h, hs_ok v6ok h ->
+  let e1 := with_host e (hs_text h ++ [58]) in
+  let e0 := with_host e (hs_text h) in
+  host_port e1 = host_port e0 /\ domain e1 = domain e0 /\ host_url e1 = host_url e0 /\
+  application_url e1 = application_url e0 /\ path_url e1 = path_url e0 /\ url e1 = url e0 /\
+  path e1 = path e0 /\ path_qs e1 = path_qs e0.
+Proof. exact empty_port_equiv. Qed.
+Print Assumptions C13_empty_port.
+
+(* ---- facets of "every query string" / "default port elided" that the code does not keep (findings):
+        [query_ok] in C13_blank_roundtrip is needed *)
+Theorem C13_blank_query_tab_refuted :
+  exists u e', url (req_q [97; 9; 98]) = Ok u /\ environ_from_url (fun _ => true) u = Ok e' /\
+    e_query e' = Some [97; 98] /\ e_query e' <> e_query (req_q [97; 9; 98]).
+Proof. exact blank_query_tab_witness. Qed.
+Print Assumptions C13_blank_query_tab_refuted.
+
+Theorem C13_blank_query_hash_refuted :
+  exists u, url (req_q [97; 35; 98]) = Ok u /\ environ_from_url (fun _ => true) u = Raise ETypeError.
+Proof. exact blank_query_hash_witness. Qed.
+Print Assumptions C13_blank_query_hash_refuted.
+
+Theorem C13_url_query_verbatim_refuted :
+  exists u1 u2, url (req_q [97; 32; 98]) = Ok u1 /\ forallb rfc_query_char (skipn 11 u1) = false /\
+                url (req_q [233]) = Ok u2 /\ forallb is_ascii u2 = false.
+Proof. exact url_query_verbatim_witness. Qed.
+Print Assumptions C13_url_query_verbatim_refuted.
+
+Theorem C13_default_port_leading_zero_refuted :
+  let e := mkEnv s_http (Some (H "683a303830"%string)) (H "73"%string) s_80 (Some []) (H "2f61"%string) None Utf8 in
+  port_value (host_port e) = port_value s_80 /\ host_url e = H "687474703a2f2f683a303830"%string /\
+  host_url e <> e_scheme e ++ s_css ++ domain e.
+Proof. exact default_port_leading_zero_witness. Qed.
+Print Assumptions C13_default_port_leading_zero_refuted.
